@@ -148,7 +148,7 @@ Lemma endp_nonneg : 0 <= endp.
 Proof. rewrite endp_len. lia. Qed.
 
 (* the reader's view of the position one past the last record *)
-Lemma open_chunk_zero off : open_chunk data off 0 = mkZr [] 0 None 5 false.
+Lemma open_chunk_zero off : open_chunk data off 0 = mkZr [] 0 None 5 false false.
 Proof.
   unfold open_chunk, slice. change (N.to_nat 0) with O. cbn [firstn app].
   vm_compute. reflexivity.
@@ -182,6 +182,10 @@ Proof.
     intros H; discriminate H.
 Qed.
 
+(* does the decompressor of chunk k return its final status together with its last bytes *)
+Definition joined (k : Z) : bool :=
+  z_joined (open_chunk data (Z.to_N (CompOffset (pv k))) (Z.to_N (CompOffset (cu k) - CompOffset (pv k)))).
+
 (* ---- the cursor invariant -------------------------------------------------- *)
 Record Cur (s : xr) (pos k : Z) : Prop := mkCur {
   c_data : r_data s = data;
@@ -203,7 +207,8 @@ Record Cur (s : xr) (pos k : Z) : Prop := mkCur {
   c_disc : 0 <= r_discard s <= Z.of_nat (length (z_rest (r_zr s)));
   c_lp : RawOffset (pv k) + zN (z_outoff (r_zr s)) + r_discard s = Z.min pos endp;
   c_beyond : endp < pos -> k = L;
-  c_err : r_err s = None \/ (r_err s = Some EEOF /\ k = L)
+  c_err : r_err s = None \/ (r_err s = Some EEOF /\ k = L);
+  c_joined : z_joined (r_zr s) = joined k
 }.
 
 (* ---- Seek, unfolded into named pieces ---------------------------------------- *)
@@ -596,7 +601,7 @@ Definition discard_state (s : xr) : xr :=
   let z := r_zr s in
   let d := Z.to_N (r_discard s) in
   mkXR (r_data s) (r_recs s) (r_ri s) (r_offset s) 0 (r_chk s)
-       (mkZr (skipn (N.to_nat d) (z_rest z)) (z_outoff z + d) (z_end z) (z_used z) (z_sync_ok z))
+       (mkZr (skipn (N.to_nat d) (z_rest z)) (z_outoff z + d) (z_end z) (z_used z) (z_sync_ok z) (z_joined z))
        None (r_log s).
 
 Lemma discard_cur s pos k :
@@ -606,7 +611,7 @@ Proof.
   pose proof (ro_pv_nonneg k Hk) as Hpn.
   unfold discard_state. destruct C.
   constructor; cbn [r_data r_recs r_offset r_ri r_chk r_zr r_discard r_err
-                    z_rest z_outoff z_end z_used z_sync_ok]; try assumption; try lia.
+                    z_rest z_outoff z_end z_used z_sync_ok z_joined]; try assumption; try lia.
   - rewrite c_zrest0. rewrite Z_N_nat. rewrite cs_skipn by (unfold zN; lia).
     f_equal. unfold zN. lia.
   - rewrite skipn_length. unfold zN in *. lia.
@@ -620,7 +625,7 @@ Definition data_state (s : xr) (n : N) : xr :=
   let chunk := firstn (N.to_nat n) (z_rest z) in
   mkXR (r_data s) (r_recs s) (r_ri s) (r_offset s + zN (N.of_nat (length chunk))) 0 (r_chk s)
        (mkZr (skipn (N.to_nat n) (z_rest z)) (z_outoff z + N.of_nat (length chunk))
-             (z_end z) (z_used z) (z_sync_ok z))
+             (z_end z) (z_used z) (z_sync_ok z) (z_joined z))
        None (r_log s).
 
 Lemma data_cur s pos k n :
@@ -655,7 +660,7 @@ Proof.
     by exact (c_zrest _ _ _ C).
   destruct C.
   constructor; cbn [r_data r_recs r_offset r_ri r_chk r_zr r_discard r_err
-                    z_rest z_outoff z_end z_used z_sync_ok]; try assumption; try lia.
+                    z_rest z_outoff z_end z_used z_sync_ok z_joined]; try assumption; try lia.
   - rewrite c_off0. unfold zN. lia.
   - rewrite (skipn_min (N.to_nat n) rest), <- Hm. rewrite Hrest at 1.
     replace m with (Z.to_nat (Z.of_nat m)) at 1 by lia.
@@ -673,7 +678,7 @@ Lemma zr_read_cons z n : z_rest z <> [] ->
   ((firstn (N.to_nat n) (z_rest z), None),
    mkZr (skipn (N.to_nat n) (z_rest z))
         (z_outoff z + N.of_nat (length (firstn (N.to_nat n) (z_rest z))))
-        (z_end z) (z_used z) (z_sync_ok z)).
+        (z_end z) (z_used z) (z_sync_ok z) (z_joined z)).
 Proof. intros H. unfold zr_read. destruct (z_rest z); [contradiction | reflexivity]. Qed.
 
 Definition avail (pos : Z) : list byte := cs (Z.min pos endp) endp.
@@ -684,6 +689,88 @@ Proof.
   rewrite endp_len. lia.
 Qed.
 
+(* one iteration of read_loop, by cases *)
+Lemma read_loop_discard_step f s n acc :
+  r_err s = None -> n <> 0%N -> 0 < r_discard s ->
+  (Z.to_N (r_discard s) <= N.of_nat (length (z_rest (r_zr s))))%N ->
+  z_end (r_zr s) = None ->
+  read_loop (S f) s n acc = read_loop f (discard_state s) n acc.
+Proof.
+  intros He Hn Hd Hle Hz. cbn [read_loop]. rewrite He.
+  replace (n =? 0)%N with false by (symmetry; apply N.eqb_neq; exact Hn).
+  replace (0 <? r_discard s) with true by (symmetry; apply Z.ltb_lt; exact Hd).
+  replace (Z.to_N (r_discard s) <=? N.of_nat (length (z_rest (r_zr s))))%N with true
+    by (symmetry; apply N.leb_le; exact Hle).
+  unfold discard_state. rewrite Hz, andb_false_r. reflexivity.
+Qed.
+
+Lemma read_loop_data_step f s n acc :
+  r_err s = None -> n <> 0%N -> r_discard s <= 0 -> z_rest (r_zr s) <> [] ->
+  read_loop (S f) s n acc =
+  let ds := data_state s n in
+  let chunk := firstn (N.to_nat n) (z_rest (r_zr s)) in
+  let n' := (n - N.of_nat (length chunk))%N in
+  if zr_status_now (r_zr ds) then
+    let s'' := match z_end (r_zr s) with Some e => latch_err ds e | None => chunk_end ds end in
+    if (n' =? 0)%N then ((acc ++ chunk, None), s'') else read_loop f s'' n' (acc ++ chunk)
+  else read_loop f ds n' (acc ++ chunk).
+Proof.
+  intros He Hn Hd Hne. cbn [read_loop]. rewrite He.
+  replace (n =? 0)%N with false by (symmetry; apply N.eqb_neq; exact Hn).
+  replace (0 <? r_discard s) with false by (symmetry; apply Z.ltb_ge; exact Hd).
+  rewrite (zr_read_cons _ _ Hne). reflexivity.
+Qed.
+
+Lemma read_loop_zero f s acc : r_err s = None -> read_loop (S f) s 0 acc = ((acc, None), s).
+Proof. intros He. cbn [read_loop]. rewrite He. reflexivity. Qed.
+
+Lemma zr_status_now_nil z : zr_status_now z = true -> z_rest z = [].
+Proof.
+  unfold zr_status_now. intros H. apply andb_true_iff in H. destruct H as [_ H].
+  destruct (z_rest z); [reflexivity | discriminate].
+Qed.
+
+Lemma read_sticky' s n e : r_err s = Some e -> read s n = (([], Some e), s).
+Proof.
+  intros He. unfold read.
+  destruct (2 * length (r_recs s) + N.to_nat n + 8)%nat eqn:F; [lia|].
+  cbn [read_loop]. rewrite He. reflexivity.
+Qed.
+
+Lemma read_zero' s : read s 0 = (([], r_err s), s).
+Proof.
+  unfold read.
+  destruct (2 * length (r_recs s) + N.to_nat 0 + 8)%nat eqn:F; [lia|].
+  cbn [read_loop]. destruct (r_err s); reflexivity.
+Qed.
+
+Lemma close_refines s st :
+  Rel s st ->
+  exists res s' st', close s = (res, s') /\ sp_close st = (res, st') /\ Rel s' st'.
+Proof.
+  intros [[E1 E2]|[k [C E]]].
+  - exists None, s, st. unfold close, sp_close. rewrite E1, E2.
+    repeat split; try reflexivity. left; split; assumption.
+  - unfold close, sp_close. rewrite <- E.
+    destruct (c_err _ _ _ C) as [H|[H _]]; rewrite H;
+      eexists None, _, _; (repeat split; try reflexivity); left; split; reflexivity.
+Qed.
+
+Lemma open_rel s0 :
+  r_data s0 = data -> r_recs s0 = T -> r_ri s0 = 0 -> r_offset s0 = 0 -> r_err s0 = None ->
+  Rel (snd (seek s0 0 0)) (mkSp 0 None).
+Proof.
+  intros Hd HT Hr Ho He. rewrite seek_unfold. unfold blocked. rewrite He. unfold spos.
+  cbn [Z.eqb Z.ltb Z.compare].
+  assert (Hf : fast_ok s0 0 = false) by (unfold fast_ok; rewrite Ho; reflexivity).
+  rewrite Hf. cbn [snd].
+  assert (Hri : 0 <= r_ri s0 <= L) by (rewrite Hr; pose proof L_pos; lia).
+  destruct (slow_cur s0 0 Hd HT Hri (Z.le_refl 0)) as [C E].
+  right. exists (hint_ri s0 0). split; [exact C | exact E].
+Qed.
+(* When the last record of the table carries data and its decompressor returns io.EOF
+   together with the last bytes, the Read that takes exactly those bytes returns them and
+   leaves io.EOF latched (second alternative below); read_refines excludes it (Hlast). *)
 Lemma read_loop_spec : forall fuel s n acc pos k,
   Cur s pos k -> r_err s = None ->
   (2 * Z.to_nat (L - k) + N.to_nat n + (if (0 <? r_discard s)%Z then 1 else 0) + 2 <= fuel)%nat ->
@@ -693,29 +780,31 @@ Lemma read_loop_spec : forall fuel s n acc pos k,
        then (acc ++ firstn (N.to_nat n) (avail pos), None)
        else (acc ++ avail pos, Some EEOF), s') /\
     if (N.to_nat n <=? length (avail pos))%nat
-    then (exists k', Cur s' (pos + zN n) k') /\ r_err s' = None
+    then (exists k', Cur s' (pos + zN n) k') /\
+         (r_err s' = None \/ (r_err s' = Some EEOF /\ RO T (L - 2) < RO T (L - 1)))
     else (exists k', Cur s' (pos + Z.of_nat (length (avail pos))) k') /\ r_err s' = Some EEOF.
 Proof.
   induction fuel as [|f IH]; intros s n acc pos k C He Hf; [lia|].
-  cbn [read_loop]. rewrite He.
   pose proof (c_k _ _ _ C) as Hk. pose proof (c_pos _ _ _ C) as Hp.
   destruct (n =? 0)%N eqn:En.
-  - apply N.eqb_eq in En. subst n. change (N.to_nat 0) with O. cbn [Nat.leb firstn].
-    exists s. rewrite app_nil_r. split; [reflexivity|]. split; [|exact He].
+  - apply N.eqb_eq in En. subst n. rewrite (read_loop_zero f s acc He).
+    change (N.to_nat 0) with O. cbn [Nat.leb firstn].
+    exists s. rewrite app_nil_r. split; [reflexivity|]. split; [|left; exact He].
     exists k. change (zN 0) with 0. rewrite Z.add_0_r. exact C.
   - apply N.eqb_neq in En.
     destruct (0 <? r_discard s) eqn:Ed.
     + (* consume the discard *)
       apply Z.ltb_lt in Ed. pose proof (c_disc _ _ _ C) as Hd.
-      replace (Z.to_N (r_discard s) <=? N.of_nat (length (z_rest (r_zr s))))%N with true
-        by (symmetry; apply N.leb_le; lia).
-      change (read_loop f _ n acc) with (read_loop f (discard_state s) n acc).
+      rewrite (read_loop_discard_step f s n acc He En Ed) by (try exact (c_zend _ _ _ C); lia).
       apply (IH (discard_state s) n acc pos k (discard_cur s pos k C He Ed) eq_refl).
       cbn [discard_state r_discard]. cbn. lia.
     + apply Z.ltb_ge in Ed. pose proof (c_disc _ _ _ C) as Hd.
       assert (Hd0 : r_discard s = 0) by lia.
       destruct (z_rest (r_zr s)) as [|b rest] eqn:Hz.
       * (* chunk exhausted *)
+        cbn [read_loop]. rewrite He.
+        replace (n =? 0)%N with false by (symmetry; apply N.eqb_neq; exact En).
+        replace (0 <? r_discard s) with false by (symmetry; apply Z.ltb_ge; exact Ed).
         rewrite (zr_read_nil _ _ Hz), (c_zend _ _ _ C).
         destruct (chunk_end_spec s pos k C He Hd0 Hz) as [C' [E1 [E2 Hlp]]]. cbv zeta in *.
         set (k' := Z.min (k + 1) L) in *.
@@ -739,22 +828,15 @@ Proof.
            destruct (0 <? r_discard (chunk_end s)); unfold k' in *; lia.
       * (* deliver data *)
         assert (Hne : z_rest (r_zr s) <> []) by (rewrite Hz; discriminate).
-        rewrite (zr_read_cons _ _ Hne).
+        rewrite (read_loop_data_step f s n acc He En Ed Hne). cbv zeta.
         destruct (data_cur s pos k n C He Hd0 Hne) as [C' [Hpe [Hchunk Hpm]]]. cbv zeta in *.
+        rewrite <- Hz in *.
         set (chunk := firstn (N.to_nat n) (z_rest (r_zr s))) in *.
         set (m := length chunk) in *.
         assert (Hm1 : (1 <= m)%nat).
         { unfold m, chunk. rewrite firstn_length, Hz. cbn [length]. lia. }
         assert (Hmn : (m <= N.to_nat n)%nat).
         { unfold m, chunk. rewrite firstn_length. lia. }
-        change (read_loop f _ (n - N.of_nat m) (acc ++ chunk))
-          with (read_loop f (data_state s n) (n - N.of_nat m) (acc ++ chunk)).
-        assert (Hf' : (2 * Z.to_nat (L - k) + N.to_nat (n - N.of_nat m)
-                       + (if (0 <? r_discard (data_state s n))%Z then 1 else 0) + 2 <= f)%nat).
-        { cbn [data_state r_discard]. cbn [Z.ltb Z.compare]. lia. }
-        destruct (IH (data_state s n) (n - N.of_nat m)%N (acc ++ chunk) (pos + Z.of_nat m) k C' eq_refl Hf')
-          as [s' [Hrun Hpost]].
-        exists s'. rewrite Hrun. clear Hrun IH.
         (* relate avail pos and avail (pos + m) *)
         assert (Hsplit : avail pos = chunk ++ avail (pos + Z.of_nat m)).
         { unfold avail. rewrite !Z.min_l by lia. rewrite Hchunk. symmetry. apply cs_app; lia. }
@@ -762,39 +844,104 @@ Proof.
         assert (HL2 : Z.of_nat (length (avail (pos + Z.of_nat m))) = endp - (pos + Z.of_nat m)).
         { rewrite avail_length by lia. rewrite Z.min_l by lia. reflexivity. }
         rewrite Z.min_l in HL1 by lia.
-        replace (N.to_nat (n - N.of_nat m)) with (N.to_nat n - m)%nat in * by lia.
-        destruct (N.to_nat n - m <=? length (avail (pos + Z.of_nat m)))%nat eqn:Eb.
-        -- apply Nat.leb_le in Eb.
-           replace (N.to_nat n <=? length (avail pos))%nat with true by (symmetry; apply Nat.leb_le; lia).
-           split.
-           ++ f_equal. f_equal. rewrite Hsplit, firstn_app. fold m.
-              rewrite (firstn_all2 chunk) by (fold m; lia). rewrite <- app_assoc. reflexivity.
-           ++ destruct Hpost as [[k2 C2] E2]. split; [|exact E2]. exists k2.
-              replace (pos + zN n) with (pos + Z.of_nat m + zN (n - N.of_nat m)) by (unfold zN; lia).
-              exact C2.
-        -- apply Nat.leb_gt in Eb.
-           replace (N.to_nat n <=? length (avail pos))%nat with false by (symmetry; apply Nat.leb_gt; lia).
-           split.
-           ++ f_equal. f_equal. rewrite Hsplit, <- app_assoc. reflexivity.
-           ++ destruct Hpost as [[k2 C2] E2]. split; [|exact E2]. exists k2.
-              replace (pos + Z.of_nat (length (avail pos)))
-                with (pos + Z.of_nat m + Z.of_nat (length (avail (pos + Z.of_nat m)))) by lia.
-              exact C2.
+        (* the chunk has data, so it is a record of the table *)
+        pose proof (c_zlen _ _ _ C) as Hlen.
+        assert (Hl : (1 <= length (z_rest (r_zr s)))%nat) by (rewrite Hz; cbn [length]; lia).
+        assert (Hkl : k <> L).
+        { intros ->. rewrite cu_L_rsize in Hlen. unfold zN in *. lia. }
+        (* what the loop goes on with after these bytes *)
+        assert (Hgo : forall sX kX,
+                  Cur sX (pos + Z.of_nat m) kX -> r_err sX = None ->
+                  (2 * Z.to_nat (L - kX) + N.to_nat (n - N.of_nat m)
+                   + (if (0 <? r_discard sX)%Z then 1 else 0) + 2 <= f)%nat ->
+                  exists s',
+                    read_loop f sX (n - N.of_nat m) (acc ++ chunk) =
+                      (if (N.to_nat n <=? length (avail pos))%nat
+                       then (acc ++ firstn (N.to_nat n) (avail pos), None)
+                       else (acc ++ avail pos, Some EEOF), s') /\
+                    if (N.to_nat n <=? length (avail pos))%nat
+                    then (exists k', Cur s' (pos + zN n) k') /\
+                         (r_err s' = None \/ (r_err s' = Some EEOF /\ RO T (L - 2) < RO T (L - 1)))
+                    else (exists k', Cur s' (pos + Z.of_nat (length (avail pos))) k') /\ r_err s' = Some EEOF).
+        { intros sX kX CX EX Hf'.
+          destruct (IH sX (n - N.of_nat m)%N (acc ++ chunk) (pos + Z.of_nat m) kX CX EX Hf')
+            as [s' [Hrun Hpost]].
+          exists s'. rewrite Hrun. clear Hrun IH.
+          replace (N.to_nat (n - N.of_nat m)) with (N.to_nat n - m)%nat in * by lia.
+          destruct (N.to_nat n - m <=? length (avail (pos + Z.of_nat m)))%nat eqn:Eb.
+          -- apply Nat.leb_le in Eb.
+             replace (N.to_nat n <=? length (avail pos))%nat with true by (symmetry; apply Nat.leb_le; lia).
+             split.
+             ++ f_equal. f_equal. rewrite Hsplit, firstn_app. fold m.
+                rewrite (firstn_all2 chunk) by (fold m; lia). rewrite <- app_assoc. reflexivity.
+             ++ destruct Hpost as [[k2 C2] E2]. split; [|exact E2]. exists k2.
+                replace (pos + zN n) with (pos + Z.of_nat m + zN (n - N.of_nat m)) by (unfold zN; lia).
+                exact C2.
+          -- apply Nat.leb_gt in Eb.
+             replace (N.to_nat n <=? length (avail pos))%nat with false by (symmetry; apply Nat.leb_gt; lia).
+             split.
+             ++ f_equal. f_equal. rewrite Hsplit, <- app_assoc. reflexivity.
+             ++ destruct Hpost as [[k2 C2] E2]. split; [|exact E2]. exists k2.
+                replace (pos + Z.of_nat (length (avail pos)))
+                  with (pos + Z.of_nat m + Z.of_nat (length (avail (pos + Z.of_nat m)))) by lia.
+                exact C2. }
+        fold chunk. fold m.
+        destruct (zr_status_now (r_zr (data_state s n))) eqn:Ej.
+        -- (* the status came with these bytes: the chunk ends in this call *)
+           rewrite (c_zend _ _ _ C).
+           pose proof (zr_status_now_nil _ Ej) as Hz'.
+           destruct (chunk_end_spec (data_state s n) (pos + Z.of_nat m) k C' eq_refl eq_refl Hz')
+             as [C'' [E1 [E2 Hlp]]]. cbv zeta in *.
+           replace (Z.min (k + 1) L) with (k + 1) in * by lia.
+           destruct (Z.eq_dec (k + 1) L) as [Ek|Ek].
+           ++ (* it was the last record: io.EOF is latched in this call *)
+              specialize (E2 Ek). rewrite Ek in C''.
+              assert (Hend : pos + Z.of_nat m = endp).
+              { replace k with (L - 1) in Hlp by lia. rewrite ro_cu_lt in Hlp by lia.
+                rewrite <- endp_last in Hlp. lia. }
+              assert (Hav : length (avail pos) = m) by lia.
+              assert (Hav2 : avail pos = chunk).
+              { rewrite Hsplit. destruct (avail (pos + Z.of_nat m)); [apply app_nil_r | cbn [length] in HL2; lia]. }
+              assert (Hro : RO T (L - 2) < RO T (L - 1)).
+              { replace k with (L - 1) in Hlen by lia. rewrite ro_cu_lt in Hlen by lia. rewrite ro_pv in Hlen.
+                replace (L - 1 - 1) with (L - 2) in Hlen by lia. unfold zN in *. lia. }
+              exists (chunk_end (data_state s n)).
+              destruct (n - N.of_nat m =? 0)%N eqn:En'.
+              ** apply N.eqb_eq in En'.
+                 replace (N.to_nat n <=? length (avail pos))%nat with true by (symmetry; apply Nat.leb_le; lia).
+                 split.
+                 --- f_equal. f_equal. rewrite Hav2. rewrite firstn_all2 by (fold m; lia). reflexivity.
+                 --- split; [|right; split; [exact E2 | exact Hro]]. exists L.
+                     replace (pos + zN n) with (pos + Z.of_nat m) by (unfold zN; lia). exact C''.
+              ** apply N.eqb_neq in En'.
+                 replace (N.to_nat n <=? length (avail pos))%nat with false by (symmetry; apply Nat.leb_gt; lia).
+                 destruct f as [|f']; [lia|]. cbn [read_loop]. rewrite E2.
+                 split; [rewrite Hav2; reflexivity|].
+                 split; [|reflexivity]. exists L. rewrite Hav. exact C''.
+           ++ assert (Hk' : k + 1 < L) by lia.
+              specialize (E1 Hk').
+              assert (Hf' : (2 * Z.to_nat (L - (k + 1)) + N.to_nat (n - N.of_nat m)
+                             + (if (0 <? r_discard (chunk_end (data_state s n)))%Z then 1 else 0) + 2 <= f)%nat).
+              { destruct (0 <? r_discard (chunk_end (data_state s n))); lia. }
+              destruct (n - N.of_nat m =? 0)%N eqn:En'.
+              ** apply N.eqb_eq in En'.
+                 destruct (Hgo _ _ C'' E1 Hf') as [s' [Hrun Hpost]].
+                 rewrite En' in Hrun. destruct f as [|f']; [lia|].
+                 rewrite (read_loop_zero f' _ _ E1) in Hrun.
+                 exists s'. split; [exact Hrun | exact Hpost].
+              ** exact (Hgo _ _ C'' E1 Hf').
+        -- apply (Hgo (data_state s n) k C' eq_refl).
+           cbn [data_state r_discard]. cbn [Z.ltb Z.compare]. lia.
 Qed.
 
-Lemma read_sticky' s n e : r_err s = Some e -> read s n = (([], Some e), s).
-Proof.
-  intros He. unfold read.
-  destruct (2 * length (r_recs s) + N.to_nat n + 8)%nat eqn:F; [lia|].
-  cbn [read_loop]. rewrite He. reflexivity.
-Qed.
-
-Lemma read_zero' s : read s 0 = (([], r_err s), s).
-Proof.
-  unfold read.
-  destruct (2 * length (r_recs s) + N.to_nat 0 + 8)%nat eqn:F; [lia|].
-  cbn [read_loop]. destruct (r_err s); reflexivity.
-Qed.
+(* The last record carries no raw data (it is the footer record in every table
+   open_reader builds: open_last_empty below).  Needed since the Reader acts on
+   the final status of a chunk in the Read call that hands over its last bytes
+   when the decompressor returns both together (z_joined): were that the last
+   chunk of the table, Read would return the last bytes with io.EOF latched,
+   and a following Read of an empty buffer would return io.EOF where a
+   ReadSeeker at the end returns nil. *)
+Hypothesis Hlast : RO T (L - 2) = RO T (L - 1).
 
 Lemma read_refines s st n :
   Rel s st ->
@@ -820,25 +967,13 @@ Proof.
         unfold read. rewrite Hrun. cbn [app].
         unfold clen. rewrite <- endp_len. fold (avail (sp_pos st)).
         destruct (N.to_nat n <=? length (avail (sp_pos st)))%nat.
-        -- destruct Hpost as [[k' C'] E'].
+        -- destruct Hpost as [[k' C'] [E'|[_ E']]]; [|lia].
            exists (firstn (N.to_nat n) (avail (sp_pos st)), None), s', (mkSp (sp_pos st + zN n) None).
            repeat split; try reflexivity. right. exists k'. split; [exact C' | exact E'].
         -- destruct Hpost as [[k' C'] E'].
            exists (avail (sp_pos st), Some EEOF), s',
                   (mkSp (sp_pos st + Z.of_nat (length (avail (sp_pos st)))) (Some EEOF)).
            repeat split; try reflexivity. right. exists k'. split; [exact C' | exact E'].
-Qed.
-
-Lemma close_refines s st :
-  Rel s st ->
-  exists res s' st', close s = (res, s') /\ sp_close st = (res, st') /\ Rel s' st'.
-Proof.
-  intros [[E1 E2]|[k [C E]]].
-  - exists None, s, st. unfold close, sp_close. rewrite E1, E2.
-    repeat split; try reflexivity. left; split; assumption.
-  - unfold close, sp_close. rewrite <- E.
-    destruct (c_err _ _ _ C) as [H|[H _]]; rewrite H;
-      eexists None, _, _; (repeat split; try reflexivity); left; split; reflexivity.
 Qed.
 
 Lemma step_refines s st o :
@@ -863,18 +998,6 @@ Proof.
   cbn [fst] in *. rewrite IH. reflexivity.
 Qed.
 
-Lemma open_rel s0 :
-  r_data s0 = data -> r_recs s0 = T -> r_ri s0 = 0 -> r_offset s0 = 0 -> r_err s0 = None ->
-  Rel (snd (seek s0 0 0)) (mkSp 0 None).
-Proof.
-  intros Hd HT Hr Ho He. rewrite seek_unfold. unfold blocked. rewrite He. unfold spos.
-  cbn [Z.eqb Z.ltb Z.compare].
-  assert (Hf : fast_ok s0 0 = false) by (unfold fast_ok; rewrite Ho; reflexivity).
-  rewrite Hf. cbn [snd].
-  assert (Hri : 0 <= r_ri s0 <= L) by (rewrite Hr; pose proof L_pos; lia).
-  destruct (slow_cur s0 0 Hd HT Hri (Z.le_refl 0)) as [C E].
-  right. exists (hint_ri s0 0). split; [exact C | exact E].
-Qed.
 End Refine.
 
 Lemma seek_keeps_recs s off wh : r_recs (snd (seek s off wh)) = r_recs s.
@@ -887,6 +1010,41 @@ Proof.
   cbn [snd]. unfold slow_state. destruct (get_records (r_recs s) (hint_ri s pos)). reflexivity.
 Qed.
 
+(* the record AppendRecord(size, 0, typ) appends carries no raw data: the footer
+   record open_reader ends every table with *)
+Lemma append_record_zero_last recs c typ recs' :
+  append_record recs c 0 typ = Some recs' -> 0 <= RO recs' (zlen recs' - 2) ->
+  RO recs' (zlen recs' - 2) = RO recs' (zlen recs' - 1).
+Proof.
+  unfold append_record. intros H.
+  destruct ((0 <? 0) || (c <? 0)); [discriminate|].
+  destruct ((wrap64 (CompOffset (last_record recs) + c) <? CompOffset (last_record recs))
+            || (wrap64 (RawOffset (last_record recs) + 0) <? RawOffset (last_record recs))) eqn:E;
+    [discriminate|].
+  apply orb_false_iff in E. destruct E as [_ E]. apply Z.ltb_ge in E.
+  inversion H; subst recs'. clear H.
+  unfold zlen. rewrite app_length. cbn [length].
+  replace (Z.of_nat (length recs + 1) - 1) with (Z.of_nat (length recs)) by lia.
+  replace (Z.of_nat (length recs + 1) - 2) with (Z.of_nat (length recs) - 1) by lia.
+  assert (H1 : RO (recs ++ [mkRec (wrap64 (CompOffset (last_record recs) + c))
+                                   (wrap64 (RawOffset (last_record recs) + 0)) typ])
+                  (Z.of_nat (length recs)) = wrap64 (RawOffset (last_record recs) + 0)).
+  { unfold RO, nth_rec. replace (Z.of_nat (length recs) <? 0) with false by (symmetry; apply Z.ltb_ge; lia).
+    rewrite Nat2Z.id, app_nth2, Nat.sub_diag by lia. reflexivity. }
+  assert (H2 : RO (recs ++ [mkRec (wrap64 (CompOffset (last_record recs) + c))
+                                   (wrap64 (RawOffset (last_record recs) + 0)) typ])
+                  (Z.of_nat (length recs) - 1) = RawOffset (last_record recs)).
+  { destruct recs as [|r0 recs0] eqn:Er; [reflexivity|]. rewrite <- Er.
+    assert (Hne : recs <> []) by (rewrite Er; discriminate).
+    rewrite (last_nth_rec recs Hne). unfold RO, nth_rec, zlen.
+    assert (Hl : (1 <= length recs)%nat) by (rewrite Er; cbn [length]; lia).
+    replace (Z.of_nat (length recs) - 1 <? 0) with false by (symmetry; apply Z.ltb_ge; lia).
+    rewrite app_nth1 by lia. reflexivity. }
+  rewrite H1, H2. intros Hnn.
+  unfold wrap64 in *. change (2 ^ 63) with 9223372036854775808 in *.
+  change (2 ^ 64) with 18446744073709551616 in *. lia.
+Qed.
+
 (* ---- the theorem for a stream as the reader opens it ------------------------------- *)
 Theorem xflate_reader_refines_readseeker data content s1 :
   open_reader data = inr s1 ->
@@ -897,13 +1055,17 @@ Proof.
   destruct (decode_footer data) as [e|[[backSize footSize] log]]; [discriminate|].
   destruct (decode_indexes_loop _ _ _ _ _ _ _) as [e|[idxs log']]; [discriminate|].
   destruct (merge_indexes [] idxs) as [recs|]; [|discriminate].
-  destruct (append_record recs (zN footSize) 0 footerType) as [recs'|]; [|discriminate].
-  set (s0 := mkXR data recs' 0 0 0 (0, 0, 0) (mkZr [] 0 None 0 false) None log') in *.
+  destruct (append_record recs (zN footSize) 0 footerType) as [recs'|] eqn:Ea; [|discriminate].
+  set (s0 := mkXR data recs' 0 0 0 (0, 0, 0) (mkZr [] 0 None 0 false false) None log') in *.
   destruct (seek s0 0 0) as [r s1'] eqn:Es. inversion Ho; subst s1'. clear Ho.
   assert (Hs1 : s1 = snd (seek s0 0 0)) by (rewrite Es; reflexivity).
   assert (HT : r_recs s1 = recs').
   { rewrite Hs1, seek_keeps_recs. reflexivity. }
   rewrite HT in Hh.
-  apply (run_refines data recs' content Hh).
+  assert (Hlast : RO recs' (L recs' - 2) = RO recs' (L recs' - 1)).
+  { apply (append_record_zero_last _ _ _ _ Ea).
+    pose proof (L_pos data recs' content Hh) as HL.
+    apply (ro_nonneg data recs' content Hh). fold (L recs'). lia. }
+  apply (run_refines data recs' content Hh Hlast).
   rewrite Hs1. apply (open_rel data recs' content Hh); reflexivity.
 Qed.
